@@ -51,7 +51,16 @@ SNAPSHOTS / BOOT / RESTART (`snapBody`, `bootOf`, `restartHist`: C06's `Clem.Sna
 (`runTurnsMA`), and THE LOG STREAM (`Clem/Model/ComposeLog.lean`: every record of every stream, emission order, key
 order, `normalize_for_identity`).
 
-WHAT IS INSIDE, WHAT IS A PARAMETER, WHAT IS NOT COVERED (status after step 8)
+REFINEMENT (`Props/C01/ComposeRefine.lean`): every stage output of `runTurn` IS the stand-alone stage model of its
+package on the input the glue builds (`C01_compose_refines_stages`), so the theorems of C03 / C04 / C06 / C11 / C12 /
+C13 / C17 / C18 / C19 hold for every turn of every history.  C15: the turn-level cache (an association list here)
+REFINES `Clem.TtlLru.Ns` (`Props/C01/ComposeCacheRefine.lean`: same hits, same values, same contents after `get` /
+`set`, as long as the looked-up entry is not expired and an insert finds room) — the "no expiry / no eviction"
+assumption made precise.  NOT literally reused: C09's parallel fan-out models (`Clem.ParT1/ParT2`: a pure per-graph
+parameter and natural-number counters; the composed worlds keep `perf.parallel` off) and C15's byte-bounded stage
+caches (`LruBytes`: the T1 result cache is a list, the T2 stage cache is transparent).
+
+WHAT IS INSIDE, WHAT IS A PARAMETER, WHAT IS NOT COVERED (status after step 9)
 
 | part of `run_turn`                          | status                                                                  |
 |---------------------------------------------|-------------------------------------------------------------------------|
